@@ -1,6 +1,6 @@
 (* C06 - DFA language comparisons, emptiness and finiteness decisions are exact. *)
 From Coq Require Import List Arith Bool.
-From AV Require Import Base.Util Spec.Lang Spec.FA Model.Decide Model.Product Proofs.Decide Proofs.Product.
+From AV Require Import Base.Util Spec.Lang Spec.FA Model.Decide Model.Product Proofs.Decide Proofs.Product Proofs.Finite.
 Import ListNotations.
 
 (* Each comparison returns a boolean (never an error) for valid operands over the same alphabet,
@@ -35,6 +35,25 @@ Theorem C06_isempty : forall m, valid_dfa m = true ->
   exists b, isempty_m m = Ok b /\ (b = true <-> forall w, ~ L_dfa m w).
 Proof. exact isempty_spec. Qed.
 Print Assumptions C06_isempty.
+
+(* isfinite: a boolean, never an error, and it is true exactly when the lengths of the accepted words
+   are bounded (which, over a finite alphabet, is finiteness of the language) *)
+Theorem C06_isfinite : forall m, valid_dfa m = true ->
+  exists b, isfinite_m m = Ok b /\ (b = true <-> exists n, forall w, L_dfa m w -> length w <= n).
+Proof. exact isfinite_spec. Qed.
+Print Assumptions C06_isfinite.
+
+(* the two answers read constructively: True gives the bound |states|, False gives, for every n, an
+   accepted word longer than n *)
+Theorem C06_isfinite_true_bound : forall m, valid_dfa m = true -> isfinite_m m = Ok true ->
+  forall w, L_dfa m w -> length w < length (d_states m).
+Proof. exact isfinite_true_bound. Qed.
+Print Assumptions C06_isfinite_true_bound.
+
+Theorem C06_isfinite_false_witness : forall m, valid_dfa m = true -> isfinite_m m = Ok false ->
+  forall n, exists w, L_dfa m w /\ n < length w.
+Proof. exact isfinite_false_witness. Qed.
+Print Assumptions C06_isfinite_false_witness.
 
 (* alphabets that differ are refused *)
 Theorem C06_mismatch : forall A B, same_syms A B = false ->
